@@ -75,8 +75,10 @@ class C11Disk(Scenario):
         if r < 91:
             return {"op": "export", "dir": rng.choice(seams.Scratch.DIRS) if rng.chance(1, 2) else "b",
                     "style": rng.choice(("abs", "rel", "path", "relpath", "dirlink", "home", "dirlinkpath")),
-                    "keep_dest": rng.chance(1, 2)}
+                    "keep_dest": rng.chance(1, 2), "frozen": rng.chance(1, 2)}
         if r < 92:
+            if rng.chance(1, 4):
+                return {"op": "export_hardlink", "dir": rng.choice(seams.Scratch.DIRS)}
             return {"op": "export_self", "style": rng.choice(("abs", "rel", "path", "relpath", "dirlink", "home", "dirlinkpath"))}
         if r < 93:
             return {"op": "clear"} if rng.chance(1, 2) else {"op": "setcount", "v": rng.choice((0, 3, 1000))}
@@ -400,6 +402,10 @@ class C11Disk(Scenario):
             ctx.fault("export_to_own_path")
             self.check_after_return("export", sig)
             return {"r": "ok"}
+        if op == "export_hardlink":
+            if self.f is None:
+                return "skip"
+            return self.do_export_hardlink(step)
         if op == "setcount":
             if self.f is None:
                 return "skip"
@@ -517,6 +523,10 @@ class C11Disk(Scenario):
         if step.get("keep_dest") and os.path.exists(dest_abs):
             # the destination still holds an EARLIER export of this filter (same size, written moments ago)
             self.ctx.fault("dest_holds_earlier_export")
+            if step.get("frozen"):
+                # file clock frozen: the earlier export and the backing file carry the same size AND timestamp
+                self.scr.clock.freeze()
+                self.ctx.fault("clock_frozen")
         else:
             with open(dest_abs, "wb") as fh:  # stale destination: longer garbage
                 fh.write(b"\xAA" * ((self.m + 7) // 8 + 57))
@@ -530,11 +540,45 @@ class C11Disk(Scenario):
         except Exception as e:
             raise Violation("export_failed", f"export({spelled!r}) from cwd {self.scr.cwd!r} raised "
                                              f"{type(e).__name__}: {e}", sig)
+        finally:
+            self.scr.clock.thaw()
         img = self.check_after_return("export", sig)
         got = common.read_fresh(dest_abs)
         if got != img:
             raise Violation("export_differs", f"export({spelled!r}) wrote {len(got)} bytes that differ from the "
                                               f"{len(img)}-byte backing file", sig)
+        return {"r": "ok"}
+
+    def do_export_hardlink(self, step):
+        """export() onto another NAME of the backing file that no path arithmetic can unify: a hard link.  Whether the
+        call raises or returns is not this property's business; the backing file must stay a well-formed, current
+        export and the process must survive.  Runs in a forked child so that a fatal signal is an observation."""
+        link = self.scr.abspath(step["dir"], "hardlink.blm")
+        if os.path.lexists(link):
+            os.unlink(link)
+        os.link(self.path, link)
+        self.ctx.fault("export_to_hard_link")
+        sig = {"phase": "export", "op": "export_hardlink"}
+        f = self.f
+        pid = os.fork()
+        if pid == 0:
+            code = 0
+            try:
+                f.export(link)
+            except BaseException:
+                code = 3
+            finally:
+                os._exit(code)
+        _, status = os.waitpid(pid, 0)
+        try:
+            if os.WIFSIGNALED(status):
+                raise Violation("export_killed_process",
+                                f"export() onto a hard link of the backing file ended the process with signal "
+                                f"{os.WTERMSIG(status)}; the backing file now has {os.path.getsize(self.path)} bytes", sig)
+            self.ctx.count("export_hardlink_" + ("returned" if os.WEXITSTATUS(status) == 0 else "raised"))
+            self.check_after_return("export", sig)
+        finally:
+            os.unlink(link)
         return {"r": "ok"}
 
     def finish(self):
